@@ -324,6 +324,11 @@ def initial_lenses(v):
     # two singlets of the same glass, the material object created once and handed to both add_surface calls
     L['shared-glass'] = (LZ.INF, [S('sphere', R=R, mat=g1, t=t[1], stop=True), S('sphere', R=-R, mat='air', t=t[0]),
                                   S('sphere', R=2 * R, mat=g1, t=t[1]), S('sphere', R=-2 * R, mat='air', t=1.5 * R)])
+    # two aspheres given the same coefficient list object, and a polynomial surface whose coefficients are given as integer zeros
+    L['shared-coeffs'] = (LZ.INF, [S('asph', R=R, k=0.0, coeffs=[1e-5, -2e-8], mat=g1, t=t[1], stop=True),
+                                   S('asph', R=-2 * R, k=0.0, coeffs=[1e-5, -2e-8], mat='air', t=t[0]),
+                                   S('poly', R=3 * R, k=0.0, coeffs=[[0, 0, 0], [0, 0, 0], [0, 0, 0]], mat=g2, t=t[1]),
+                                   S('sphere', R=-3 * R, mat='air', t=1.5 * R)])
     # a plano window that is bent into a lens by edits: pickup sources / targets are flat when the pickup is registered
     L['plano-window'] = (LZ.INF, [S('plane', mat=g1, t=t[1], stop=True), S('plane', mat='air', t=2 * R)])
     return L
@@ -607,7 +612,7 @@ def run_edits(part, unit):
     ap = ('EPD', p['epd'])
     ftype = 'angle' if math.isinf(obj) else 'object_height'
     sp = LZ.spec(surfs, obj=obj, ap=ap, ftype=ftype, fields=(0.0, p['ang'] if math.isinf(obj) else p['h']), waves=((0.55, True),))
-    if name == 'shared-glass':
+    if name in ('shared-glass', 'shared-coeffs'):
         sp['share_materials'] = True
 
     def fresh():
